@@ -312,6 +312,64 @@ def pyx_kernels() -> list[dict]:
     return out
 
 
+MRI_T = "direct/data/mri_transforms.py"
+PLUMBING_EXPECTED = [
+    "CreateSamplingMask: seed = None if not self.use_seed else tuple(map(ord, str(sample['filename'])))",
+    "CreateSamplingMask: every self.mask_func call passes shape=shape and seed=seed",
+    "CreateSamplingMask: the mask call has return_acs=False, the acs call return_acs=True",
+    "CreateSamplingMask: no random draw in __call__",
+    "integerize_seed: an int seed is returned unchanged (first statement)",
+]
+
+
+def plumbing() -> list[tuple[str, bool]]:
+    """seed plumbing from the data pipeline into the generators, and `integerize_seed`'s int shortcut"""
+    rows = []
+    try:
+        t = parse_file(REPO / MRI_T)
+        cls = next(c for c in t.body if isinstance(c, ast.ClassDef) and c.name == "CreateSamplingMask")
+        fn = next(f for f in cls.body if isinstance(f, ast.FunctionDef) and f.name == "__call__")
+        norm = lambda n: ast.unparse(n).replace(" ", "").replace('"', "'")  # noqa: E731
+        seeds = [st for st in ast.walk(fn) if isinstance(st, ast.Assign) and norm(st.targets[0]) == "seed"]
+        ok_seed = len(seeds) == 1 and norm(seeds[0].value) == "Noneifnotself.use_seedelsetuple(map(ord,str(sample['filename'])))"
+        calls = [n for n in ast.walk(fn) if isinstance(n, ast.Call) and norm(n.func) == "self.mask_func"]
+        kws = [{k.arg: norm(k.value) for k in c.keywords} for c in calls]
+        ok_pass = bool(calls) and all(not c.args and k.get("shape") == "shape" and k.get("seed") == "seed" for c, k in zip(calls, kws))
+        ok_acs = sorted(k.get("return_acs", "?") for k in kws) == ["False", "True"]
+        tb = TableBuilder(t)
+        ctx = {"fresh": set()}
+        draws = [n for n in ast.walk(fn) if isinstance(n, ast.Call) and _chain(n.func)
+                 and tb.classify(_chain(n.func), ctx) is not None]
+        rows += [(PLUMBING_EXPECTED[0], ok_seed), (PLUMBING_EXPECTED[1], ok_pass), (PLUMBING_EXPECTED[2], ok_acs),
+                 (PLUMBING_EXPECTED[3], not draws)]
+    except (Untranslatable, StopIteration, SyntaxError, OSError):
+        rows += [(x, False) for x in PLUMBING_EXPECTED[:4]]
+    try:
+        t = parse_file(REPO / SUB)
+        fn = next(f for f in t.body if isinstance(f, ast.FunctionDef) and f.name == "integerize_seed")
+        body = [st for st in fn.body if not (isinstance(st, ast.Expr) and isinstance(st.value, ast.Constant))]
+        st = body[0]
+        ok = (isinstance(st, ast.If) and ast.unparse(st.test).replace(" ", "") == "isinstance(seed,int)"
+              and len(st.body) == 1 and isinstance(st.body[0], ast.Return) and ast.unparse(st.body[0].value) == "seed")
+        rows.append((PLUMBING_EXPECTED[4], ok))
+    except (Untranslatable, StopIteration, IndexError, SyntaxError, OSError):
+        rows.append((PLUMBING_EXPECTED[4], False))
+    return rows
+
+
+def calgary_report() -> dict:
+    """CalgaryCampinasMaskFunc is outside the property's 14 generators: its sites are reported, not judged"""
+    try:
+        tb = TableBuilder(parse_file(REPO / SUB))
+        tb.generator("CalgaryCampinas")
+        g = tb.gens[0]
+        return {"scope_ok": g["scope_ok"], "sites": [dict(func=s["func"], lineno=s["lineno"], src=s["src"], in_scope=s["in_scope"])
+                                                     for s in tb.sites], "all_ok": g["scope_ok"] and all(
+            s["in_scope"] and s["src"] in ("priv", "fresh") for s in tb.sites)}
+    except Exception as e:  # noqa: BLE001
+        return {"error": repr(e)}
+
+
 _CACHE: dict = {}
 
 
@@ -324,7 +382,7 @@ def rng_table() -> dict:
         for g in GENERATORS:
             tb.generator(g)
         _CACHE[key] = {"sites": tb.sites, "gens": tb.gens, "kernel_calls": tb.kernel_calls, "pyx": pyx_kernels(),
-                       "temp_seed_shape": temp_seed_shape(tree)}
+                       "temp_seed_shape": temp_seed_shape(tree), "plumbing": plumbing(), "calgary": calgary_report()}
     return _CACHE[key]
 
 
@@ -355,6 +413,15 @@ def _lean_text(t: dict) -> str:
     L.append("]\n")
     L.append("/-- .pyx kernels: `srand(seed)` on the int parameter `seed`, once, before any `rand()` -/")
     L.append("def pyxKernels : List (String × Bool) := [" + ", ".join(f"(\"{k['name']}\", {_b(k['ok'])})" for k in t["pyx"]) + "]\n")
+    L.append("/-- seed plumbing into the generators (`CreateSamplingMask.__call__`, `integerize_seed`): (fact, holds) -/")
+    L.append("def plumbing : List (String × Bool) := [")
+    for i, (txt, ok) in enumerate(t["plumbing"]):
+        sep = "," if i + 1 < len(t["plumbing"]) else ""
+        q = txt.replace('"', "'")
+        L.append(f'  ("{q}", {_b(ok)}){sep}')
+    L.append("]\n")
+    cg = t.get("calgary", {})
+    L.append(f"-- report only (outside the 14 generators): CalgaryCampinasMaskFunc sites = {cg}\n")
     L.append("/-- statement skeleton of `temp_seed` -/")
     L.append("def tempSeedShape : List String := [" + ", ".join(f"\"{x}\"" for x in t["temp_seed_shape"]) + "]\n")
     return "\n".join(L)
@@ -370,11 +437,16 @@ def _extra():
                 "def gens : List (String × Bool × List Nat × List Nat) :=\n  ["
                 + ", ".join(f"(\"{g}\", true, [0], [0])" for g in GENERATORS) + "]\n"
                 "def kernelCalls : List (Bool × Bool) := []\n"
+                "def plumbing : List (String × Bool) := []\n"
                 "def pyxKernels : List (String × Bool) := []\n"
                 "def tempSeedShape : List String := [" + ", ".join(f"\"{x}\"" for x in TEMP_SEED_SHAPE) + "]\n")
         return text, {"rng_access_table": f"skipped: {e}"}
+    cg = t.get("calgary", {})
     return _lean_text(t), {"rng_access_table": "translated", "temp_seed_shape": "translated",
-                           "kernel_seed_provenance": "translated", "pyx_srand_order": "translated"}
+                           "kernel_seed_provenance": "translated", "pyx_srand_order": "translated",
+                           "seed_plumbing": "translated",
+                           "calgary_campinas(report only)": "all draws on self.rng inside temp_seed(self.rng, seed)"
+                           if cg.get("all_ok") else f"NOT admissible: {cg}"}
 
 
 EXTRA["C05"] = _extra
